@@ -52,6 +52,73 @@ theorem c17_any_number (s : State) (n : Nat) :
     simp only [List.foldl_map]
     exact ih (reconnect s)
 
+/-! ### the old transport is closed -/
+
+/-- **closes the old transport**: whatever transport the connection was using when the reconnect
+started is closed by it, and the client holds no transport until the provider yields the next. -/
+theorem c17_old_transport_closed (s : State) (t : Nat) (h : s.current = some t) :
+    t ∈ (reconnect s).closedT ∧ (reconnect s).current = none := by
+  simp [reconnect, step, h]
+
+/-- every transport ever obtained is either the one in use or closed -/
+def TransInv (s : State) : Prop :=
+  (∀ i, i < s.taken → s.current = some i ∨ i ∈ s.closedT) ∧ (∀ t, s.current = some t → t < s.taken)
+
+/-- the provider is asked for a transport only while the client holds none (`connect()` resolves a
+*pending* `_next_transport`; resolving it twice raises) -/
+def OneAtATime : State → List Ev → Prop
+  | _, [] => True
+  | s, e :: es => (e = .providerYields → s.current = none) ∧ OneAtATime (step s e) es
+
+theorem transInv_step (s : State) (e : Ev) (h : TransInv s) (hy : e = .providerYields → s.current = none) :
+    TransInv (step s e) := by
+  obtain ⟨h1, h2⟩ := h
+  cases e with
+  | providerYields =>
+    have hc := hy rfl
+    refine ⟨fun i hi => ?_, fun t ht => ?_⟩
+    · simp only [step] at hi ⊢
+      by_cases hit : i = s.taken
+      · left; rw [hit]
+      · right
+        rcases h1 i (by omega) with h | h
+        · rw [hc] at h; cases h
+        · exact h
+    · simp only [step] at ht ⊢
+      cases ht; omega
+  | closeForReconnect =>
+    refine ⟨fun i hi => ?_, fun t ht => by simp [step] at ht⟩
+    simp only [step] at hi ⊢
+    right
+    rcases h1 i hi with h | h
+    · simp [h]
+    · exact List.mem_append_left _ h
+  | senderStep =>
+    simp only [step]
+    split <;> exact ⟨h1, h2⟩
+  | _ => exact ⟨h1, h2⟩
+
+/-- **Over every life-cycle history** (any number of reconnects, for whatever cause, with any
+requests, keepalives, timeouts and sender steps in between): at most one transport is open - each
+transport obtained from the provider earlier has been closed. -/
+theorem c17_every_old_transport_closed (s : State) (h : TransInv s) (evs : List Ev) (hl : OneAtATime s evs) :
+    TransInv (run s evs) := by
+  induction evs generalizing s with
+  | nil => exact h
+  | cons e es ih =>
+    simp only [run, List.foldl_cons]
+    exact ih (step s e) (transInv_step s e h hl.1) hl.2
+
+theorem c17_every_old_transport_closed_from_start (evs : List Ev) (hl : OneAtATime {} evs) (i : Nat)
+    (hi : i < (run {} evs).taken) : (run {} evs).current = some i ∨ i ∈ (run {} evs).closedT :=
+  (c17_every_old_transport_closed {} ⟨fun i hi => by simp at hi, fun t ht => by simp at ht⟩ evs hl).1 i hi
+
+/-- Non-vacuity: three connections, ended by a healthy reconnect and by a keepalive timeout: transports 0 and 1 are closed, 2 is in use. -/
+example : (run {} [.connect, .providerYields, .senderStep, .closeForReconnect, .connect, .providerYields, .keepaliveTimeout,
+    .closeForReconnect, .connect, .providerYields]).closedT = [0, 1]
+  ∧ (run {} [.connect, .providerYields, .senderStep, .closeForReconnect, .connect, .providerYields, .keepaliveTimeout,
+    .closeForReconnect, .connect, .providerYields]).current = some 2 := by decide
+
 theorem c17_counterexample_pre_f5 :
     ([Ev.connect, .providerYields, .senderStep, .keepaliveTimeout, .closeForReconnect, .connect, .providerYields,
       .request, .senderStep, .senderStep].foldl stepPreF5 {}).wire = [] := by decide
